@@ -149,6 +149,7 @@ class MinimizerBase(object):
         """
         _ = self.parameter_errors  # call par error property so they're initialized for _save_state
         self._save_state()
+        _initial_state = dict(self._save_state_dict)  # the state to return to: asking for errors must not move the fit
         _asymm_par_errs = np.zeros(shape=self.parameter_values.shape + (2,))
         try:
             self.minimize()
@@ -171,7 +172,8 @@ class MinimizerBase(object):
                     _asymm_par_errs[_par_index, 1] = _cut_up - _par_min
                     self._load_state()
         finally:
-            self._load_state()  # return to the minimum, also if the calculation fails
+            self._save_state_dict = _initial_state
+            self._load_state()  # return to where the fit was, also if the calculation fails
         return _asymm_par_errs
 
     def _get_cost_value(self, parameter_name, parameter_value, min_parameters):
